@@ -63,13 +63,38 @@ theorem digit_rat {side p : ℚ} {i : ℤ} (hs : 0 < side) (i0 : 0 ≤ i) (h1 : 
   rw [trunc_nonneg this, Int.floor_eq_iff]
   exact ⟨hq0, hq1⟩
 
+/-- `_cell_identifier`: the clamp `min(·, n - 1)` is inactive for a quotient inside the grid -/
+theorem cellDigit_rat {side p : ℚ} {i n : ℤ} (hs : 0 < side) (i0 : 0 ≤ i) (hin : i < n) (h1 : i * side ≤ p)
+    (h2 : p < (i + 1) * side) : cellDigit Ops.rat side n p = i := by
+  unfold cellDigit; rw [digit_rat hs i0 h1 h2]; omega
+
+/-- `_cell_identifier` of any non-negative entry is an identifier of the grid (also for `p = L`, which the assertion of
+`position_to_cell` admits, and beyond) -/
+theorem cellDigit_rat_bounds {side p : ℚ} {n : ℤ} (hs : 0 < side) (hn : 1 ≤ n) (p0 : 0 ≤ p) :
+    0 ≤ cellDigit Ops.rat side n p ∧ cellDigit Ops.rat side n p < n := by
+  have : 0 ≤ digit Ops.rat side p := by
+    simp only [digit, rat_toInt]
+    rw [trunc_nonneg (div_nonneg p0 hs.le)]
+    exact Int.floor_nonneg.mpr (div_nonneg p0 hs.le)
+  unfold cellDigit; omega
+
+/-- `_cell_identifier(L) = n - 1`: the system length itself is mapped to the last cell -/
+theorem cellDigit_rat_top {side : ℚ} {n : ℤ} (hs : 0 < side) : cellDigit Ops.rat side n (n * side) = n - 1 := by
+  have : digit Ops.rat side (n * side) = n := by
+    simp only [digit, rat_toInt]
+    rw [mul_div_assoc, div_self hs.ne', mul_one]
+    rcases le_or_gt 0 (n : ℚ) with h | h
+    · rw [trunc_nonneg h]; simp
+    · rw [trunc_neg h]; simp
+  unfold cellDigit; omega
+
 /-- the mid-point trick, one direction: if `x` lies strictly inside the (unwrapped) cell `m`, then
 the corrected entry `w = correct_position_entry(x)` (`JF.pywrap`; `x % L` in this exact reading) lies in the box and
 `int(w / side) = m mod n`. -/
 theorem digit_pywrap {side x : ℚ} {n m : ℤ} (hs : 0 < side) (hn : 1 ≤ n)
     (h1 : m * side < x) (h2 : x < (m + 1) * side) :
     0 ≤ pywrap Ops.rat x (n * side) ∧ pywrap Ops.rat x (n * side) ≤ n * side ∧
-      digit Ops.rat side (pywrap Ops.rat x (n * side)) = m % n := by
+      cellDigit Ops.rat side n (pywrap Ops.rat x (n * side)) = m % n := by
   have hnq : (1 : ℚ) ≤ n := by exact_mod_cast hn
   have hL : 0 < (n : ℚ) * side := by positivity
   rw [pywrap_rat_pos x _ hL]
@@ -97,7 +122,7 @@ theorem digit_pywrap {side x : ℚ} {n m : ℤ} (hs : 0 < side) (hn : 1 ≤ n)
   refine ⟨?_, ?_, ?_⟩
   · nlinarith
   · nlinarith
-  · apply digit_rat hs hr0
+  · apply cellDigit_rat hs hr0 hr1
     · nlinarith
     · nlinarith
 
@@ -153,17 +178,45 @@ def assertInBox (lengths pos : List ℚ) : Bool :=
   (List.zipWith (fun p l => decide (Ops.rat.ofInt 0 ≤ p) && decide (p ≤ l)) pos lengths).all id
 
 /-- the identifier `position_to_cell` looks up -/
-def posIdent (side pos : List ℚ) : List Int := List.zipWith (fun sd p => digit Ops.rat sd p) side pos
+def posIdent (side : List ℚ) (perSide : List Int) (pos : List ℚ) : List Int := cellDigits Ops.rat side perSide pos
+
+/-- positions the assertion of `position_to_cell` admits: `0 ≤ p_d ≤ L_d` -/
+def InClosedBox : List ℚ → List ℚ → Prop
+  | [], [] => True
+  | l :: ls, p :: ps => (0 ≤ p ∧ p ≤ l) ∧ InClosedBox ls ps
+  | _, _ => False
+
+/-- every position the assertion admits (`p_d = L_d` included) passes it and has a valid identifier: `position_to_cell`
+cannot raise `IndexError` -/
+theorem posIdent_valid_closed : ∀ {n : List Int} {side L p : List ℚ}, DirOK n side L → InClosedBox L p →
+    assertInBox L p = true ∧ Valid n (posIdent side n p)
+  | [], [], [], [], _, _ => ⟨rfl, trivial⟩
+  | n :: ns, sd :: sds, l :: ls, p :: ps, hd, hb => by
+    obtain ⟨⟨hn, hs, rfl⟩, hd'⟩ := hd
+    obtain ⟨⟨p0, p1⟩, hb'⟩ := hb
+    obtain ⟨ha, hv⟩ := posIdent_valid_closed hd' hb'
+    obtain ⟨b0, b1⟩ := cellDigit_rat_bounds (n := n) hs hn p0
+    refine ⟨?_, ?_⟩
+    · simp only [assertInBox, List.zipWith_cons_cons, List.all_cons, rat_ofInt, Int.cast_zero] at ha ⊢
+      simp [p0, p1, ha]
+    · simp only [posIdent, cellDigits]
+      exact ⟨b0, b1, hv⟩
+  | [], [], [], _ :: _, _, h => by simp [InClosedBox] at h
+  | [], [], _ :: _, _, h, _ => by simp [DirOK] at h
+  | [], _ :: _, _, _, h, _ => by simp [DirOK] at h
+  | _ :: _, [], _, _, h, _ => by simp [DirOK] at h
+  | _ :: _, _ :: _, [], _, h, _ => by simp [DirOK] at h
+  | _ :: _, _ :: _, _ :: _, [], _, h => by simp [InClosedBox] at h
 
 /-- positions in the box pass the assertion, their digits form a valid identifier -/
 theorem posIdent_valid : ∀ {n : List Int} {side L p : List ℚ}, DirOK n side L → InBox L p →
-    assertInBox L p = true ∧ Valid n (posIdent side p) ∧
+    assertInBox L p = true ∧ Valid n (posIdent side n p) ∧
       ∀ (ident : List Int) (lo hi : List ℚ), ExtIdeal side ident lo hi → Valid n ident →
-        (Contains lo hi p ↔ ident = posIdent side p)
+        (Contains lo hi p ↔ ident = posIdent side n p)
   | [], [], [], [], _, _ => by
     refine ⟨rfl, trivial, ?_⟩
     intro ident lo hi h _
-    cases ident <;> cases lo <;> cases hi <;> simp_all [ExtIdeal, Contains, posIdent]
+    cases ident <;> cases lo <;> cases hi <;> simp_all [ExtIdeal, Contains, posIdent, cellDigits]
   | n :: ns, sd :: sds, l :: ls, p :: ps, hd, hb => by
     obtain ⟨⟨hn, hs, rfl⟩, hd'⟩ := hd
     obtain ⟨⟨p0, p1⟩, hb'⟩ := hb
@@ -177,11 +230,11 @@ theorem posIdent_valid : ∀ {n : List Int} {side L p : List ℚ}, DirOK n side 
       have := Int.floor_le (p / sd); rwa [le_div_iff₀ hs] at this
     have hhi : p < ((⌊p / sd⌋ : ℚ) + 1) * sd := by
       have := Int.lt_floor_add_one (p / sd); rwa [div_lt_iff₀ hs] at this
-    have hdig : digit Ops.rat sd p = ⌊p / sd⌋ := digit_rat hs hfl0 hlo hhi
+    have hdig : cellDigit Ops.rat sd n p = ⌊p / sd⌋ := cellDigit_rat hs hfl0 hfl1 hlo hhi
     refine ⟨?_, ?_, ?_⟩
     · simp only [assertInBox, List.zipWith_cons_cons, List.all_cons, rat_ofInt, Int.cast_zero] at ha ⊢
       simp [p0, p1.le, ha]
-    · simp only [posIdent, List.zipWith_cons_cons, hdig]
+    · simp only [posIdent, cellDigits, hdig]
       exact ⟨hfl0, hfl1, hv⟩
     · intro ident lo hi hI hvI
       cases ident with
@@ -195,7 +248,7 @@ theorem posIdent_valid : ∀ {n : List Int} {side L p : List ℚ}, DirOK n side 
           | cons hi0 his =>
             obtain ⟨⟨rfl, rfl⟩, hI'⟩ := hI
             have := hc is los his hI' hvI.2.2
-            simp only [Contains, posIdent, List.zipWith_cons_cons, List.cons.injEq, hdig] at this ⊢
+            simp only [Contains, posIdent, cellDigits, List.cons.injEq, hdig] at this ⊢
             rw [this]
             constructor
             · rintro ⟨⟨a, b⟩, e⟩
@@ -216,7 +269,8 @@ theorem posIdent_valid : ∀ {n : List Int} {side L p : List ℚ}, DirOK n side 
 theorem midEntry_digit {sd lo hi rlo : ℚ} {n i j : ℤ} (sign : Bool) (hs : 0 < sd) (hn : 1 ≤ n)
     (h1 : |lo - i * sd| ≤ sd / 8) (h2 : |hi - (i + 1) * sd| ≤ sd / 8) (h3 : |rlo - j * sd| ≤ sd / 8) :
     0 ≤ midEntry Ops.rat sign hi lo rlo (n * sd) ∧ midEntry Ops.rat sign hi lo rlo (n * sd) ≤ n * sd ∧
-      digit Ops.rat sd (midEntry Ops.rat sign hi lo rlo (n * sd)) = (if sign then (i + j) % n else (i - j) % n) := by
+      cellDigit Ops.rat sd n (midEntry Ops.rat sign hi lo rlo (n * sd)) =
+        (if sign then (i + j) % n else (i - j) % n) := by
   obtain ⟨a1, a2⟩ := abs_le.mp h1
   obtain ⟨b1, b2⟩ := abs_le.mp h2
   obtain ⟨c1, c2⟩ := abs_le.mp h3
@@ -237,10 +291,10 @@ theorem mid_digits (sign : Bool) : ∀ {n : List Int} {side L : List ℚ} {ci : 
     DirOK n side L → ExtNear side ci clo chi → ExtNear side ri rlo rhi →
     assertInBox L (zipWith3' (fun (mm : ℚ × ℚ) om l => midEntry Ops.rat sign mm.1 mm.2 om l) (List.zip chi clo) rlo L)
         = true ∧
-      posIdent side (zipWith3' (fun (mm : ℚ × ℚ) om l => midEntry Ops.rat sign mm.1 mm.2 om l) (List.zip chi clo) rlo L)
+      posIdent side n (zipWith3' (fun (mm : ℚ × ℚ) om l => midEntry Ops.rat sign mm.1 mm.2 om l) (List.zip chi clo) rlo L)
         = (if sign then addMod n ci ri else subMod n ci ri)
   | [], [], [], [], [], [], [], [], [], _, _, _ => by
-    cases sign <;> simp [assertInBox, posIdent, zipWith3', addMod, subMod]
+    cases sign <;> simp [assertInBox, posIdent, cellDigits, zipWith3', addMod, subMod]
   | n :: ns, sd :: sds, l :: ls, i :: is, lo :: los, hi :: his, j :: js, rlo :: rlos, rhi :: rhis, hd, hc, hr => by
     obtain ⟨⟨hn, hs, rfl⟩, hd'⟩ := hd
     obtain ⟨⟨h1, h2⟩, hc'⟩ := hc
@@ -251,7 +305,7 @@ theorem mid_digits (sign : Bool) : ∀ {n : List Int} {side L : List ℚ} {ci : 
     · simp only [assertInBox, List.zip_cons_cons, zipWith3', List.zipWith_cons_cons, List.all_cons, rat_ofInt,
         Int.cast_zero] at ia ⊢
       simp [e0, e1, ia]
-    · simp only [posIdent, List.zip_cons_cons, zipWith3', List.zipWith_cons_cons] at ib ⊢
+    · simp only [posIdent, List.zip_cons_cons, zipWith3', cellDigits] at ib ⊢
       rw [e2, ib]
       cases sign <;> simp [addMod, subMod]
   | [], [], [], [], [], [], [], [], _ :: _, _, _, h => by simp [ExtNear] at h
@@ -350,20 +404,43 @@ theorem trunc_slow {a b : ℚ} (h : b ≤ a + 1) : Rat.trunc b ≤ Rat.trunc a +
       omega
     · rw [trunc_neg ha, trunc_neg hb]; simp
 
-/-- a fixed-point grid of spacing `δ ≤ side` over `ℚ` satisfies the stepper laws -/
-theorem stepLaws_grid (side δ : ℚ) (hs : 0 < side) (hδ0 : 0 ≤ δ) (hδ : δ ≤ side) :
-    StepLaws Ops.rat ⟨(· + δ), (· - δ)⟩ side := by
-  refine ⟨fun x => by simp, fun x => by simp, ?_, ?_⟩
-  · intro x
+theorem cellDigit_rat_mono {side : ℚ} (hs : 0 < side) (n : ℤ) {x y : ℚ} (h : x ≤ y) :
+    cellDigit Ops.rat side n x ≤ cellDigit Ops.rat side n y := by
+  have : digit Ops.rat side x ≤ digit Ops.rat side y := by
     simp only [digit, rat_toInt]
-    apply trunc_mono
-    apply div_le_div_of_nonneg_right _ hs.le
+    exact trunc_mono (div_le_div_of_nonneg_right h hs.le)
+  unfold cellDigit; omega
+
+/-- a fixed-point grid of spacing `δ ≤ side` over `ℚ` satisfies the stepper laws (`n` cells, system length `n·side`) -/
+theorem stepLaws_grid (side δ : ℚ) (n : ℤ) (hs : 0 < side) (hδ0 : 0 ≤ δ) (hδ : δ ≤ side) :
+    StepLaws Ops.rat ⟨(· + δ), (· - δ)⟩ side n (n * side) := by
+  refine ⟨fun x => by simp, fun x => by simp, ?_, ?_, fun x => not_le.symm, ?_, ?_⟩
+  · intro x
+    apply cellDigit_rat_mono hs
+    show x - δ ≤ x
     linarith
   · intro x
-    simp only [digit, rat_toInt]
-    apply trunc_slow
-    have e : (x - δ) / side = x / side - δ / side := by ring
-    have : δ / side ≤ 1 := (div_le_one hs).mpr hδ
-    rw [e]; linarith
+    have : digit Ops.rat side x ≤ digit Ops.rat side (x - δ) + 1 := by
+      simp only [digit, rat_toInt]
+      apply trunc_slow
+      have e : (x - δ) / side = x / side - δ / side := by ring
+      have : δ / side ≤ 1 := (div_le_one hs).mpr hδ
+      rw [e]; linarith
+    show cellDigit Ops.rat side n x ≤ cellDigit Ops.rat side n (x - δ) + 1
+    unfold cellDigit; omega
+  · intro x hx
+    show ¬ (n : ℚ) * side ≤ x - δ
+    linarith [not_le.mp hx]
+  · intro x hx _
+    show cellDigit Ops.rat side n (x - δ) = n - 1
+    have h1 : ((n - 1 : ℤ) : ℚ) ≤ (x - δ) / side := by
+      rw [le_div_iff₀ hs]; push_cast; nlinarith
+    have : n - 1 ≤ digit Ops.rat side (x - δ) := by
+      simp only [digit, rat_toInt]
+      have := trunc_mono h1
+      rcases le_or_gt 0 (((n - 1 : ℤ) : ℚ)) with h | h
+      · rw [trunc_nonneg h] at this; simpa using this
+      · rw [trunc_neg h] at this; simpa using this
+    unfold cellDigit; omega
 
 end JF.Cells
